@@ -420,7 +420,25 @@ def rule_SS3(ctx, rep):
         st = astq.enclosing_stmt(fi[0], parents(nf.node)) if fi else None
         if isinstance(st, ast.Assign):
             cn = norm(st.targets[0])
-        okc = mentions_name(first, nsp) and cn is not None and norm(second) == cn and bool(rs)
+        # the second block is the drawn coefficients shaped (t, n): followed from the concatenate operand back to the draw, through
+        # names and .reshape(t, ..) wherever it is applied
+        e_, reshaped, found = second, False, False
+        for _ in range(8):
+            if isinstance(e_, ast.Call) and attr_tail(e_.func) == 'reshape' and isinstance(e_.func, ast.Attribute):
+                if len(e_.args) == 2 and norm(e_.args[0]) == ntp:
+                    reshaped = True
+                e_ = e_.func.value
+            elif isinstance(e_, ast.Name):
+                ds_ = [d for d in astq.reaching_definitions(nf.node, e_.id, cc[0], pmn) if d[2] == 'assign' and d[1] is not None]
+                if len(ds_) != 1:
+                    break
+                e_ = ds_[0][1]
+            elif fi and e_ is fi[0]:
+                found = True
+                break
+            else:
+                break
+        okc = mentions_name(first, nsp) and found and reshaped
     if okc:
         rep.ok('SS3', nf, cc[0], 'secret row first (power 0), then the (t, n) coefficient rows')
     else:
@@ -901,7 +919,19 @@ def rule_PR1(ctx, rep):
                 rb = (los, his - 1)
         jv = norm(hl[0].target)
         st = hl[0].body[0]
-        if rb is not None and (rb[1] - rb[0]) == Lin.sym('d') - 1 and len(hl[0].body) == 1:
+        # window form `for k in range(h*d, (h+1)*d): .. prl[k] ..`: d consecutive indices starting at h*d (as polynomials)
+        from .linform import to_poly, poly_sub
+        if isinstance(it, ast.Call) and len(it.args) == 2 and len(hl[0].body) == 1 and isinstance(st, ast.Assign) and isinstance(st.value, ast.BinOp):
+            plo, phi = to_poly(_xp_arith(f0, it.args[0], hl[0], pm)), to_poly(_xp_arith(f0, it.args[1], hl[0], pm))
+            hloop_ = [l for l in enclosing_loops(hl[0], pm, stop=f0.node) if isinstance(l, ast.For)]
+            i1_ = [s_ for s_ in iter_nodes(f0.node) if isinstance(s_, ast.Assign) and _plus_one_party(s_.value) is not None and norm(_plus_one_party(s_.value)) == f0.params[2]]
+            a_, b_ = st.value.left, st.value.right
+            idx_ = [x for x in ast.walk(a_) if isinstance(x, ast.Subscript)] if isinstance(a_, ast.BinOp) and isinstance(a_.op, ast.Add) else []
+            if plo is not None and phi is not None and hloop_ and i1_ and idx_ and isinstance(hloop_[0].target, ast.Name):
+                hv_ = hloop_[0].target.id
+                if poly_sub(phi, plo) == {('d',): 1} and plo == {tuple(sorted(('d', hv_))): 1} and norm(idx_[0].slice) == jv and norm(b_) == norm(i1_[0].targets[0]):
+                    good = True
+        if not good and rb is not None and (rb[1] - rb[0]) == Lin.sym('d') - 1 and len(hl[0].body) == 1:
             v = st.value
             a, b = v.left, v.right
             i1 = [s for s in iter_nodes(f0.node) if isinstance(s, ast.Assign) and _plus_one_party(s.value) is not None and norm(_plus_one_party(s.value)) == f0.params[2]]
